@@ -10,10 +10,10 @@ claimed = {
  "C02": ("E1 simbroker/pipeline", "exploration", "5 C02", "deterministic whole-broker simulation with pre-filled real commit log on tmpfs, seeded publish sequences crossing segment and truncation boundaries, at-least-once oracle over acknowledged publishes",
          "Every publish the publisher saw acknowledged must reach every subscriber that stayed connected with a matching filter, byte-identical; logs start empty or pre-filled around the batch/segment/truncation boundaries and bursts of up to 2600 publishes cross them inside the run.",
          "Fault-free network; real vx-labs/commitlog files under the simulated broker; same trusted base as C01."),
- "C04": ("E2 ackq (+E3 lockstep when built)", "exploration", "5 C04", "sequential simulation of the real ack.Queue and both expiration.List implementations under synthetic time against a map model",
+ "C04": ("E2 ackq + E3 lockstep (-race)", "exploration", "5 C04", "sequential simulation of the real ack.Queue and both expiration.List implementations under synthetic time against a map model, plus PRNG-scheduled concurrent tasks under the race detector (lockstep engine)",
          "Register/acknowledge/sweep histories with equal, same-second, past and future deadlines and non-monotone sweep times; exactly-once callbacks, isolation between entries and the one-second expiry band are checked after every operation and by a final far-future sweep.",
          "Deadlines and sweep instants are parameters of the real API, so no clock stub is involved; 'honoured to the second' is read as a +-1 s band."),
- "C06": ("E2 idpool (+E3 lockstep when built)", "exploration", "5 C06", "sequential simulation of the real allocator against a set model with a final drain",
+ "C06": ("E2 idpool + E3 lockstep (-race)", "exploration", "5 C06", "sequential simulation of the real allocator against a set model with a final drain, plus PRNG-scheduled concurrent tasks under the race detector with a porcupine set model (lockstep engine)",
          "Allocate/release histories (including releases of free, unknown, out-of-range ids and release-first) on small ranges and on 0..65535; a final drain must hand out exactly the free identifiers once each.",
          "Values outside [min,max] returned by Get are taken as the exhaustion report."),
  "C08": ("E2 repl/converge", "exploration", "5 C08", "sequential multi-replica simulation of the real distributed.State with per-node offset clocks; seeded permutation/duplication/batching of captured broadcasts; reference LWW fold as oracle",
@@ -28,7 +28,7 @@ claimed = {
  "C11": ("E1 simbroker/lifecycle", "exploration", "5 C11", "deterministic whole-broker simulation with fake time: session scripts with idle periods relative to the keep-alive and one termination cause (DISCONNECT, cut, close, silence, protocol error, node stop), gossip faults, settle, then traffic towards every session",
          "No spurious end while the client stays within 0.9x keep-alive; on end the broker closes the connection within a cause-specific bound, no node lists the session or its subscriptions after the settle, nothing more is written to it, and at quiescence every listed subscription belongs to a listed, locally registered session.",
          "The allowance is taken as 2x keep-alive (+5 s bound); keep-alive 0 not generated; one open known finding (gossip delivered after the leave notification)."),
- "C19": ("E2 tries (+E3 lockstep when built)", "exploration", "5 C19", "sequential simulation of topics.Store and subscriptions.Tree against a Go map keyed by full topic strings, with dump/load rebuild as the restart-like event",
+ "C19": ("E2 tries + E3 lockstep (-race)", "exploration", "5 C19", "sequential simulation of topics.Store and subscriptions.Tree against a Go map keyed by full topic strings, with dump/load rebuild as the restart-like event, plus PRNG-scheduled concurrent tasks under the race detector with a porcupine map model (lockstep engine)",
          "Insert/replace/remove/upsert histories over keys with shared prefixes with a dump/load round trip at a random position; after every operation every key of the universe, the count and the iteration are compared with the map.",
          "Keys without wildcards or empty levels (those are C01's)."),
 }
